@@ -232,6 +232,20 @@ def posonly_scenarios():
     return (a, b, rest)
   def k(a, b=7):
     return (a, b)
+  def h0(a=2, b=7, /):
+    return (a, b)
+  x0, y0, z0 = fdl.Config(h0), fdl.Config(h0, 2), fdl.Config(h0, 2, 7)
+  r = safe(lambda: (x0 == y0, y0 == x0, x0 == z0, y0 == z0))
+  if r != (True, True, True, True):
+    out.append(({'clause': 'default-explicit-vs-unset', 'scenario': 'first-positional-default',
+                 'observed': str(r)}, f'Config(h0) / Config(h0, 2) / Config(h0, 2, 7) compare {r}'))
+  w0 = fdl.Config(h0, 2, 7)
+  w0[0] = 2
+  del w0[1]
+  r = safe(lambda: (w0 == x0, w0 == z0))
+  if r != (True, True):
+    out.append(({'clause': 'default-explicit-vs-unset', 'scenario': 'first-positional-default-edits',
+                 'observed': str(r)}, f'after cfg[0] = 2; del cfg[1]: {r}'))
   for name, fn in (('posonly-no-varargs', h), ('posonly-varargs', g), ('plain', k)):
     x, y = fdl.Config(fn, 1), fdl.Config(fn, 1, 7)
     r = safe(lambda: (x == y, y == x))
@@ -256,6 +270,11 @@ def main():
                EmitOn=True, AliasFix=True),
           dict(base, MaxObjs=3, MaxItems=3, NKeys=1, NSlots=3, KindSet={'config'}, EmitOn=True,
                AliasFix=True, NLeaves=0 if quick else 1)]
+  # dicts with three keys of mixed types holding shared objects; opaque mutable leaves
+  runs.append(dict(base, MaxObjs=3, MaxItems=3, NKeys=3, NSlots=1, KindSet={'config', 'dict'},
+                   EmitOn=True, AliasFix=True))
+  runs.append(dict(base, MaxObjs=3, MaxItems=2, NKeys=1, NSlots=2, KindSet={'config', 'mleaf', 'list'},
+                   EmitOn=True, AliasFix=True))
   if not quick:
     runs.append(dict(base, MaxObjs=3, MaxItems=2, NKeys=3, NSlots=2, TagChoices={0, 1},
                      KindSet={'config', 'partial', 'list', 'dict', 'tuple'}, EmitOn=True, AliasFix=True))
